@@ -243,6 +243,27 @@ func (w *World) Enabled() []Event {
 			}
 		}
 	}
+	if w.Budget[BSendSnap] > 0 {
+		// the application of a leader ships the snapshot its storage holds to a member on its own initiative
+		for _, n := range w.Nodes {
+			if n.Stopped {
+				continue
+			}
+			vs := n.vs()
+			if vs.State != raft.StateLeader {
+				continue
+			}
+			// (read through the hook: MemoryStorage.Snapshot() normalises the stored snapshot in place)
+			if _, snap, _ := n.Disk.VerifDump(); snap.GetMetadata().GetIndex() <= InitIndex {
+				continue
+			}
+			for _, pr := range vs.Progress {
+				if pr.ID != n.ID && pr.ID <= uint64(w.Sc.N) {
+					out = append(out, Event{Kind: EvSendSnap, Node: uint8(n.ID), Peer: uint8(pr.ID)})
+				}
+			}
+		}
+	}
 	// Faults.
 	if w.Budget[BDrop] > 0 {
 		for k := range d {
